@@ -399,9 +399,9 @@ Definition e_task_prop t := match e_task t, e_truth t with
                                       | _ => true end) (combine l tts) end.
 Definition e_diff_prop t := forallb (forallb (fun c => match c with None => true | _ => false end)) (e_diff0 t).
 Definition e_diff2_model t := match e_other t with None => true
-   | Some (c2, _, out) => dlines_eqb (diff_stdout (report (ec t)) (report c2)) out end.
+   | Some (c2, _, out) => diff_stdout_agrees (report (ec t)) (report c2) out end.
 Definition e_diff2_prop t := match e_other t with None => true
-   | Some (_, tbl2, out) => ok_diff_stdout (e_tbl t) tbl2 out end.
+   | Some (_, tbl2, out) => ok_diff_stdout (e_tbl t) tbl2 out && nonincreasing (map (fun l => absdiff_of (e_tbl t) tbl2 (fst l)) out) end.
 """
 
 
@@ -506,7 +506,8 @@ def run_e2e(ctx, objdir, case, d, res, amap, num, exe2=None):
     # --diff against another data set of the same program (model: pairing by name, order by |difference of Total|)
     other = "None"
     if case["kind"] == "forest" and exe2:
-        case2 = gen_case(ctx, -1, program=(case["syms"], case["fns"]), kind="forest")
+        case2 = case.get("other") or gen_case(ctx, -1, program=(case["syms"], case["fns"]), kind="forest")
+        case["other"] = case2
         d2 = d + ".other"
         write_case(case2, d2)
         res2 = run_harness(exe2, d2, [])
@@ -534,6 +535,7 @@ def run_e2e(ctx, objdir, case, d, res, amap, num, exe2=None):
 def case_json(case):
     return {"kind": case["kind"], "max_stack": case["max_stack"], "syms": [list(s) for s in case["syms"]],
             "fns": [list(f) for f in case["fns"]], "tags": case["tags"],
+            "other": case_json(case["other"]) if case.get("other") else None,
             "tasks": [{"tid": t["tid"], "recs": [list(r) for r in t["recs"]],
                        "truth": None if t["truth"] is None else [t["truth"][0], [list(o) for o in t["truth"][1]]]}
                       for t in case["tasks"]]}
@@ -542,6 +544,7 @@ def case_json(case):
 def case_from_json(j):
     return {"idx": 0, "kind": j["kind"], "max_stack": j["max_stack"], "syms": [tuple(s) for s in j["syms"]],
             "fns": [tuple(f) for f in j["fns"]], "tags": j.get("tags", []),
+            "other": case_from_json(j["other"]) if j.get("other") else None,
             "tasks": [{"tid": t["tid"], "recs": [tuple(r) for r in t["recs"]],
                        "truth": None if t["truth"] is None else (t["truth"][0], [tuple(o) for o in t["truth"][1]])}
                       for t in j["tasks"]]}
